@@ -96,6 +96,92 @@ open BMV.Bondgo
 /-- `alloc_inv`, allocation: the register handed out is not in use, so live registers stay distinct -/
 theorem alloc_inv_fresh (busy : List Nat) : fresh busy ∉ busy := fresh_not_mem busy
 
+/-- `alloc_inv`, expressions: compiling an expression from a duplicate-free busy list returns a
+    result register that was free before, is busy afterwards, and the busy list stays duplicate
+    free and only grows by that register (every temporary has been released again) -/
+theorem alloc_inv_expr (ls : List Loc) (e : Expr) (busy : List Nat) (c : List Instr) (r : Nat)
+    (busy' : List Nat) (hnd : busy.Nodup) (h : compileE ls e busy = some (c, r, busy')) :
+    r ∉ busy ∧ busy'.Nodup ∧ (∀ x, x ∈ busy' ↔ x = r ∨ x ∈ busy) :=
+  compileE_alloc ls e busy c r busy' hnd h
+
+/-- `alloc_inv`, use after release: the code of an expression writes only registers that were free
+    when its compilation started — in particular never a register variable or a live temporary of
+    an enclosing expression, and never a register released earlier and re-allocated to someone
+    else in between (those are in `busy`) -/
+theorem alloc_inv_writes (ls : List Loc) (e : Expr) (busy : List Nat) (c : List Instr) (r : Nat)
+    (busy' : List Nat) (hnd : busy.Nodup) (h : compileE ls e busy = some (c, r, busy')) :
+    ∀ i ∈ c, ∀ x ∈ i.writes, x ∉ busy :=
+  compileE_writes ls e busy c r busy' hnd h
+
+/-- `compile_correct`, expressions (any width, any environment): running the code of `e`, placed
+    anywhere in a program, from a machine state that agrees with the source state on the variables
+    (`Agree`: memory variables in their cells, register variables in their registers) computes
+    `evalE e` into the result register, consumes the same input reads, leaves memory, outputs and
+    every busy register untouched, and falls through to the next instruction -/
+theorem compile_correct_expr (env : Nat → Nat → Nat) (w : Nat) (ls : List Loc) (e : Expr)
+    (busy : List Nat) (c : List Instr) (r : Nat) (busy' : List Nat)
+    (h : compileE ls e busy = some (c, r, busy'))
+    (pre post : List Instr) (cfg : Cfg) (s : Src)
+    (hpc : cfg.pc = pre.length) (hag : Agree ls busy cfg s) :
+    let res := evalE env w e s
+    let cfg' := isaRun env w (pre ++ c ++ post) c.length cfg
+    cfg'.pc = pre.length + c.length ∧ cfg'.regs r = res.1 ∧ cfg'.mem = cfg.mem ∧
+    cfg'.outs = cfg.outs ∧ cfg'.rc = res.2.rc ∧ res.2.vars = s.vars ∧ res.2.outs = s.outs ∧
+    (∀ x ∈ busy, cfg'.regs x = cfg.regs x) := by
+  intro res cfg'
+  exact exprOK_all env w ls e busy c r busy' h pre post cfg s hpc hag
+
+/-- `compile_correct`, straight-line statements (`=`, `++`, `--`, `IOWrite`, sequencing), placed
+    anywhere in a program, for variables living in pairwise distinct places: the statement
+    finishes, the machine falls through to the next instruction, the states agree again (with the
+    new busy list) and the output lists are equal -/
+theorem compile_correct_stmt_straight (env : Nat → Nat → Nat) (w fuel : Nat) (ls : List Loc)
+    (hinj : LocsInj ls) (st : Stmt) (hs : straight st = true)
+    (base : Nat) (busy : List Nat) (c : List Instr) (busy' : List Nat)
+    (h : compileS ls st base busy = some (c, busy'))
+    (pre post : List Instr) (cfg : Cfg) (s : Src)
+    (hpc : cfg.pc = pre.length) (hag : Agree ls busy cfg s) (ho : cfg.outs = s.outs) :
+    (exec env w fuel st s).2 = true ∧
+    (isaRun env w (pre ++ c ++ post) c.length cfg).pc = pre.length + c.length ∧
+    Agree ls busy' (isaRun env w (pre ++ c ++ post) c.length cfg) (exec env w fuel st s).1 ∧
+    (isaRun env w (pre ++ c ++ post) c.length cfg).outs = (exec env w fuel st s).1.outs :=
+  straight_correct env w fuel ls hinj st hs base busy c busy' h pre post cfg s hpc hag ho
+
+/-- the declared variables get pairwise distinct registers / memory cells -/
+theorem alloc_inv_decls (decls : List Bool) : LocsInj (locs decls) := locs_inj decls
+
+/-- `compile_correct` for whole straight-line programs (declarations of register and memory
+    variables, then assignments, `++`/`--`, `IOWrite` with `+`, `*`, `IORead` expressions): for every
+    register width, every input environment and every fuel, the compiled program run from the
+    reset state for exactly its own length has left the program and has written exactly the
+    outputs of `goEval`, which has returned.
+    PARTIAL with respect to `compile_correct_full`: `if` and `for` are not covered by a theorem
+    (they are covered by the correspondence check only). -/
+theorem compile_correct_partial (env : Nat → Nat → Nat) (w fuel : Nat) (p : Prog) (code : List Instr)
+    (hc : compile p = some code) (hs : straight p.body = true) :
+    runCode env w code code.length = ((goEval env w fuel p).1, true) ∧ (goEval env w fuel p).2 = true :=
+  compile_straight env w fuel p code hc hs
+
+/-- `compile_correct_partial` implies the full statement for straight-line programs -/
+theorem compile_correct_partial_full (env : Nat → Nat → Nat) (w fuel : Nat) (p : Prog) (code : List Instr)
+    (hc : compile p = some code) (hs : straight p.body = true) :
+    ∃ n, (runCode env w code n).1 = (goEval env w fuel p).1 ∧
+         ((goEval env w fuel p).2 = true → (runCode env w code n).2 = true) := by
+  refine ⟨code.length, ?_, fun _ => ?_⟩ <;> rw [(compile_correct_partial env w fuel p code hc hs).1]
+
+/-! non-vacuity: the program of DESIGN.md section 9 (`a = 3; b = a + 2; IOWrite(o, b)`) is accepted,
+    is straight-line, compiles to the 12 lines the real compiler prints, and the theorem gives its
+    output -/
+def demo : Prog :=
+  { decls := [false, false],
+    body := .seq (.assign 0 (.lit 3)) (.seq (.assign 1 (.add (.var 0) (.lit 2))) (.seq (.iowrite 0 (.var 1)) .skip)) }
+
+example : compile demo = some
+    [.clr 0, .r2m 0 0, .clr 0, .r2m 0 1, .rset 0 3, .r2m 0 0, .m2r 0 0, .rset 1 2, .add 0 1, .r2m 0 1,
+     .m2r 0 1, .r2o 0 0] ∧ straight demo.body = true := by decide
+
+example : (runCode (fun _ _ => 0) 8 ((compile demo).getD []) 12) = ([(0, 5)], true) := by decide
+
 /-- The full statement of semantic preservation for the modelled subset: for every program the
     model compiler accepts, every width, environment and loop fuel, the compiled program reaches —
     after some number of instructions — a state whose output list is exactly what `goEval`
